@@ -1656,8 +1656,17 @@ func treeWorkDir() string {
 func runJobs(jobs []*tjob, parallel int, tier string) []*tres {
 	out := make([]*tres, len(jobs))
 	if parallel <= 1 {
+		// the long histories are cheap (a few seconds in total) and must not be starved by the searches
+		// when the machine is slow: they run first; results stay in job order (searches are published first)
 		for i, j := range jobs {
-			out[i] = j.run()
+			if j.Long != nil && j.Prop == "C10" {
+				out[i] = j.run()
+			}
+		}
+		for i, j := range jobs {
+			if out[i] == nil {
+				out[i] = j.run()
+			}
 		}
 		return out
 	}
@@ -1991,6 +2000,8 @@ func c10(tier string, r *ev.Run, replay string) {
 		"successors are produced by writing the exact white-box state (page bytes, nextPage, freePage, stats) of the expanded state back into one live tree of identical buffer geometry; every expanded state's history is also executed from scratch (after Reset) and must reach the same state key (counter expanded_states_revalidated_from_scratch), and the first 16 violations per key are re-executed from scratch before being reported",
 		"an in-memory tree after Reset is byte-identical to NewTree (verified at the start of every search and by the Reset transition from every expanded state; if it were not, one NewTree per replay is used)",
 		"Stats() is not judged by C10 (the statement does not mention it)",
+		"if z.Tree has fields beyond buffer/data/nextPage/freePage/stats: when they are all plain data (integers, floats, bools, arrays/structs of those) they are carried as opaque bytes in every snapshot, restore, clone and in the state key (shallow struct copy = exact copy); when any of them holds a pointer, map, slice, string, channel, func or interface, restore and clone probes are switched off and every successor is produced by replaying its history from scratch (slower, still sound); the per-search note says which case applied",
+		"fill / Reset / refill long histories (page sizes 4096 and 80; +96, 112, 256 thorough): fill past the first growth of the backing buffer, Reset, refill past it again in another key order with other values, full contents check (Get of every key of both fills + IterateKV) after Reset, every 8192 Sets, at every reallocation and at the end",
 		"growth of the backing buffer inside an operation: for every transition S --Set--> S' of a search that allocates a new pages at the frontier (and reaches a new state), the Set is re-executed from S on a = 1..a independent clones of S (export VerifTreeBuildTight: same page bytes and fields on a calloc buffer with k-1 spare pages and no spare capacity) so that the k-th allocation reallocates and moves the buffer; each clone must first read back exactly the contents of S (self-check of the surgery) and is then judged by the same oracle (counters tight_buffer_probes / ..._where_the_buffer_moved)",
 		"white-box equality with an empty tree is never asserted: when a Reset transition reaches a state that is not byte-identical to an empty tree, that state is additionally refilled with 2*maxKeys+2 ascending and descending Sets under the full oracle (counter reset_states_not_identical_to_empty_tree_refill_probed; 0 on a tree whose Reset is exact)",
 		"long histories: full contents check (Get of every key ever set + probes, IterateKV) after every DeleteBelow/IterateKV, at every growth of the backing buffer, every 8192 Sets and at the end; each Set is checked by Get of that key and of the previous one",
